@@ -183,3 +183,38 @@ Fixpoint check_timecharts (cs : list (Z * Z * Z * list (Z * Z) * list (Z * (Z * 
   | (s, e, st, evs, rows) :: r =>
       (if timechart_matches s e st evs rows then [] else [idx]) ++ check_timecharts r (S idx)
   end.
+
+(* ---------- 6. bin span=<n><unit> [aligntime=T] <timefield> | stats count, sum(f) by <timefield> ---------- *)
+(* rows as a set: the observed rows are exactly the groups of the model, with equal count and sum *)
+Definition binchart_matches (u : tunit) (n : Z) (align : option Z) (evs : list (Z * Z)) (rows : list (Z * (Z * Z))) : bool :=
+  let tc := bin_chart u n align evs in
+  Nat.eqb (length tc) (length rows) && z_distinct (map fst rows)
+  && forallb (fun ro : Z * (Z * Z) =>
+       match tc_find (fst ro) tc with
+       | Some (c, s) => (c =? fst (snd ro)) && (s =? snd (snd ro))
+       | None => false
+       end) rows.
+
+Fixpoint check_bins (cs : list (tunit * Z * option Z * list (Z * Z) * list (Z * (Z * Z)))) (idx : nat) : list nat :=
+  match cs with
+  | [] => []
+  | (u, n, a, evs, rows) :: r =>
+      (if binchart_matches u n a evs rows then [] else [idx]) ++ check_bins r (S idx)
+  end.
+
+(* direct calls of performBinWithSpanTime: (unit, n, aligntime, ts, bucket returned by the new-pipeline copy,
+   bucket returned by the row-based copy) *)
+Fixpoint check_bin_calls (cs : list (tunit * Z * option Z * Z * Z * Z)) (idx : nat) : list nat :=
+  match cs with
+  | [] => []
+  | (u, n, a, ts, b1, b2) :: r =>
+      (if (bin_time u n a ts =? b1) && (bin_time u n a ts =? b2) then [] else [idx]) ++ check_bin_calls r (S idx)
+  end.
+
+(* ---------- 7. timechart span=<n><unit>: the interval is computed by the model (tc_interval) ---------- *)
+Fixpoint check_timecharts_u (cs : list (Z * Z * tunit * Z * list (Z * Z) * list (Z * (Z * Z)))) (idx : nat) : list nat :=
+  match cs with
+  | [] => []
+  | (s, e, u, n, evs, rows) :: r =>
+      (if timechart_matches s e (tc_interval u n) evs rows then [] else [idx]) ++ check_timecharts_u r (S idx)
+  end.
